@@ -32,7 +32,7 @@ Open Scope N_scope.
 Inductive case :=
 | CRun (limit : N) (prog : list sinstr) (o : sobs)
 | CAdv (limit : N) (prog : list sinstr) (pre : N) (ops : list sop) (o : sobs)
-| CLife (limit : N) (fuel : N) (evs : list lev) (obs : list sobs).
+| CLife (limit : N) (fuel : N) (hook : option reason) (evs : list lev) (obs : list sobs).
 Definition res_of (r : option err) : sres :=
   match r with None => ROk | Some (ECancel x) => RCancelled x | Some (EOther _) => RErr end.
 Fixpoint size (p : list sinstr) : N :=
@@ -73,17 +73,19 @@ Definition model_ok (c : case) : bool :=
       let (st, tr) := s_run (s_start (set_max_execution_steps new_thread limit) p)
                             (sched_of (N.to_nat pre) ++ map tick_of ops ++ sched_of (fuel_of limit p)) in
       sobs_eqb (obs_of st tr) o
-  | CLife limit fuel evs obs =>
-      let (t, l) := life sstate s_dispatch s_host true (fun _ => false)
-                         (set_max_execution_steps new_thread limit) (map (to_hev fuel) evs) in
+  | CLife limit fuel hook evs obs =>
+      let t0 := set_max_execution_steps new_thread limit in
+      let t0 := match hook with Some r => set_onmax t0 (Some (cancel_hook r)) | None => t0 end in
+      let (t, l) := life sstate s_dispatch s_host true (fun _ => false) t0 (map (to_hev fuel) evs) in
       list_eqb sobs_eqb (hobs_list l) obs
   end.
 Definition spec_ok (c : case) : bool :=
   match c with
   | CRun limit p o =>
-      match spec_exec (eff limit) p [] 0 0 with (r, s, n, _) => sobs_eqb (mkObs r s n) o end && budget_ok limit o
+      match spec_exec too_many_steps (eff limit) p [] 0 0 with (r, s, n, _) => sobs_eqb (mkObs r s n) o end && budget_ok limit o
   | CAdv limit p pre ops o => true   (* rewritten by the check as a CRun with the ops inside the built-in *)
-  | CLife limit _ evs obs => list_eqb sobs_eqb (spec_life limit false evs [] 0) obs
+  | CLife limit _ hook evs obs =>
+      list_eqb sobs_eqb (spec_life (match hook with Some r => r | None => too_many_steps end) limit false evs [] 0) obs
   end.
 """
 
@@ -129,9 +131,9 @@ def run(ctx):
     hx = ctx.go_build("c07")
     ctx.log("harness built")
     if ctx.quick():
-        args = ["-gen", "16", "-cap", "250", "-coq", "400", "-life", "100", "-async", "30"]
+        args = ["-gen", "16", "-cap", "250", "-coq", "400", "-life", "100", "-async", "30", "-depth", "1"]
     else:
-        args = ["-gen", "150", "-cap", "1500", "-coq", "9000", "-life", "1500", "-async", "400", "-depth", "2"]
+        args = ["-gen", "150", "-cap", "1500", "-coq", "9000", "-life", "1500", "-async", "400", "-depth", "3"]
     lines = ctx.jsonl([hx, "-seed", str(ctx.seed)] + args, timeout=800)
     shapes, dist = {}, {}
     terms, refs = [], []
@@ -156,6 +158,8 @@ def run(ctx):
                 key = "life:" + ("watchdog" if "watchdog" in what else "started-while-cancelled" if "started while cancelled" in what else what.split(":")[0].split(" ")[0])
                 if any(e["ev"] == "setmax" for e in l["life"]):
                     key += ":with-SetMaxExecutionSteps"
+                if l.get("hook"):
+                    key += ":with-OnMaxSteps-hook"
             elif k == "inj":
                 key = "inject:" + ("other-goroutine" if l.get("other") else "in-builtin") + ":" + "".join("U" if o["c"] == 0 else "C" for o in l["ops"])
             else:
@@ -198,7 +202,7 @@ def run(ctx):
                     ob.append(obs(e["obs"]))
                     maxt = max(maxt, e["shape"]["t"])
             fuel = 3 * (maxlim + maxt) + 60
-            terms.append("(CLife %d %d [%s] [%s])" % (l["n"], fuel, "; ".join(evs), "; ".join(ob)))
+            terms.append("(CLife %d %d %s [%s] [%s])" % (l["n"], fuel, "(Some 4)" if l.get("hook") else "None", "; ".join(evs), "; ".join(ob)))
             refs.append(l)
     ctx.log("harness: %d lines, %d Go-oracle violations, %d cases for Coq" % (len(lines), nviol, len(terms)))
     bad_model, bad_spec = coq_mismatches_par(ctx, "c07_cases", HEADER, terms, ["model_ok", "spec_ok"], shard=2000 if ctx.quick() else 1500, workers=6)
